@@ -83,10 +83,15 @@ class C13(Check):
         th_edges = np.deg2rad(np.concatenate([np.asarray(cfg.scales.rmin, dtype=float).ravel(),
                                               np.asarray(cfg.scales.rmax, dtype=float).ravel()]))
 
+        dup = case_bits(case, "duplicates") % 3 == 0
+
         def points(n_each, with_z, with_w):
             xyz, _ = cats.points_around(rng, centres, n_each, r)
             xyz = np.concatenate([xyz, centres + rng.normal(0, 1e-4, centres.shape)])
             xyz /= np.linalg.norm(xyz, axis=1)[:, None]
+            if dup:  # exactly repeated positions (pixelised randoms, objects observed twice)
+                k = len(xyz) // 4
+                xyz[:k] = xyz[k:2 * k]
             pid, margin = cats.nearest_centre(xyz, centres)
             keep = margin > 1e-7
             xyz = xyz[keep]
@@ -117,7 +122,14 @@ class C13(Check):
         if any(near_edge(tables[a], tables[b]) for a, b in pairs_used):
             return [result(SKIPPED, cls="rejected-margin", nontrivial=False, counters=dict(rejected_margin=1))]
 
-        from_index = tr.startswith("rotation") and case_bits(case, "index") % 2 == 1
+        from_index = (tr.startswith("rotation") or tr == "row_permutation") and case_bits(case, "index") % 2 == 1
+        # a patch with more records than any internal block size: 70000 further randoms in patch 0, sorted by
+        # right ascension, with redshifts outside the binning (they enter the patch metadata, no pair count)
+        big = from_index and tr == "row_permutation" and case_bits(case, "big") % 4 == 0
+        if big:
+            ex = gen.cap_points(rng, centres[0], r * 0.9, 70000)
+            ex = ex[np.argsort(gen.xyz_to_radec(ex)[0])]
+            tables["rr"]["extra"] = ex
 
         def build(tmp, tag, tabs, cen):
             cobj = cats.coords_obj(cen)
@@ -126,9 +138,16 @@ class C13(Check):
                 # the largest catalog defines the patches through an index column (centres = mean
                 # directions computed by the library); the others take their centres from it
                 t = tabs["rr"]
-                ra, dec = gen.xyz_to_radec(t["xyz"])
-                pid, _ = cats.nearest_centre(t["xyz"], cen)
-                c["rr"] = cats.create(tmp / f"{tag}-rr", cats.table(ra, dec, w=t["w"], z=t["z"], patch=pid))
+                xyz_, z_, w_ = t["xyz"], t["z"], t["w"]
+                if t.get("extra") is not None:
+                    first = bool(t.get("extra_first"))
+                    parts = [t["extra"], xyz_] if first else [xyz_, t["extra"]]
+                    zex = np.full(len(t["extra"]), 5.0)
+                    xyz_ = np.concatenate(parts)
+                    z_ = np.concatenate([zex, z_] if first else [z_, zex])
+                ra, dec = gen.xyz_to_radec(xyz_)
+                pid, _ = cats.nearest_centre(xyz_, cen)
+                c["rr"] = cats.create(tmp / f"{tag}-rr", cats.table(ra, dec, w=w_, z=z_, patch=pid))
                 cobj = c["rr"]
             for k, t in tabs.items():
                 if k in c:
@@ -161,7 +180,10 @@ class C13(Check):
         elif tr == "row_permutation":
             for k in t_tables:
                 o = rng.permutation(len(tables[k]["xyz"]))
-                t_tables[k] = {kk: (None if vv is None else vv[o]) for kk, vv in tables[k].items()}
+                t_tables[k] = {kk: (None if vv is None else vv[o]) for kk, vv in tables[k].items() if kk != "extra"}
+                if tables[k].get("extra") is not None:
+                    t_tables[k]["extra"] = tables[k]["extra"][rng.permutation(len(tables[k]["extra"]))]
+                    t_tables[k]["extra_first"] = True
         elif tr == "centre_permutation":
             perm = rng.permutation(P)
             while P > 1 and np.array_equal(perm, np.arange(P)):
